@@ -36,6 +36,9 @@ def run(ctx):
     rc = ctx.rule('R11.c', 'root decision: two identical waves and sent == received; accumulators reset after every inconclusive wave', floor=4)
     rd = ctx.rule('R11.d', 'binary-heap topology', floor=4)
     re_ = ctx.rule('R11.e', 'callback only after TERMINATED', floor=2)
+    rf = ctx.rule('R11.f', 'msg_dispatch: a message reaches dispatch_taskpool only after the latest lookup was tested registered, monitored and not NOT_READY; otherwise it is delayed under the list lock', floor=5)
+    from rules.C12 import check_dispatch
+    check_dispatch(ctx, u, rf, PFX + 'msg_dispatch', PFX + 'msg_dispatch_taskpool')
     funcs = {n: f for n, f in u.funcs().items() if f.file.endswith('termdet_fourcounter_module.c')}
 
     # ---- (a) rw_lock
